@@ -812,7 +812,7 @@ func ruleLockPair(c *Ctx, r *Reporter) {
 		if pk := shortPkg(fn.Package().Pkg.Path()); strings.HasPrefix(pk, "reconciler/") {
 			continue
 		}
-		ord := 0
+		ord, ordP := 0, 0
 		for _, ia := range allInstrs(fn) {
 			call, ok := ia.In.(ssa.CallInstruction)
 			if !ok {
@@ -822,6 +822,33 @@ func ruleLockPair(c *Ctx, r *Reporter) {
 				continue
 			}
 			cl, acq, ok := c.lockClassOfCall(call)
+			if ok && acq && cl != "internal.sortableMutex.Mutex" {
+				// no explicit panic while the lock is held, unless a deferred Unlock releases it:
+				// a recovered panic would leave the lock held forever
+				deferred := false
+				for _, ib := range allInstrs(fn) {
+					if d, isDefer := ib.In.(*ssa.Defer); isDefer {
+						if cl2, acq2, ok2 := c.lockClassOfCall(d); ok2 && !acq2 && cl2 == cl {
+							deferred = true
+						}
+					}
+				}
+				var pan ssa.Instruction
+				if !deferred {
+					for _, in := range c.heldRegion(fn, call, cl) {
+						if p, isPanic := in.(*ssa.Panic); isPanic && pan == nil {
+							pan = p
+						}
+					}
+				}
+				ordP++
+				keyP := fmt.Sprintf("%s|%s#%d no explicit panic while held", c.fnName(fn), cl, ordP)
+				if pan == nil {
+					r.ok(keyP, c.posStr(instrPos(ia.In)), "no panic statement is reachable between the Lock and its release (or the release is deferred)")
+				} else {
+					r.bad(keyP, c.posStr(instrPos(pan)), "a panic statement is reachable while "+cl+" is held and no deferred Unlock releases it: a caller that recovers (or a test harness) leaves the lock held and every later acquirer blocks forever - validate before acquiring")
+				}
+			}
 			if !ok || !acq || cl == classTables || cl == "internal.sortableMutex.Mutex" {
 				// table locks are paired across functions (TXN-PAIR, ABORT-PURE, COMMIT-ORDER);
 				// sortableMutex.Lock is the acquiring wrapper itself
